@@ -275,7 +275,9 @@ class Behaviour(object):
         for kind, e in self.effects:
             if not self._holds(e, g):
                 continue
-            loops = tuple((canon(self.norm(l.iter)) if not l.is_while else ("while",), tuple(sorted((canon(self.norm(a)), p) for a, p in l.filter))) for l in e.loops)
+            # the loops an effect sits in; their filters are ordinary guard literals of the effect (already judged by _holds),
+            # so `for x in xs: if c(x): f(x)` and `for x in [x for x in xs if c(x)]: f(x)` are the same effect
+            loops = tuple((canon(self.norm(l.iter)) if not l.is_while else ("while",), ()) for l in e.loops)
             r = lambda v: self._val(v, g)
             if kind == "write":
                 effs.append(("write", loops, r(e.obj), self.fmap.get(e.field, e.field) if e.obj == ("param", "self") else e.field, r(e.value)))
